@@ -1642,3 +1642,26 @@ Qed.
 
 Lemma stable1_const : forall b, stable1 (fun _ _ => b).
 Proof. intros b m m' g _ _ _. reflexivity. Qed.
+
+(* the simplest functions with the footprint property: leave the copies as they are *)
+Definition id_mut (t k : nat) (m : mem) (g : gref) : mem * gref := (m, g).
+Definition id_cross (t k : nat) (m : mem) (g1 g2 : gref) : mem * list gref := (m, [g1; g2]).
+
+Lemma id_mut_footprint : mut_footprint id_mut.
+Proof.
+  intros t k m g nl gl Hn Hg Hs Hc Hgr. simpl. split; [|exact Hgr].
+  repeat split; try apply frame_refl; try lia; try apply Hs; apply Hc.
+Qed.
+
+Lemma id_mut_keeps_wf : mut_keeps_wf id_mut.
+Proof. intros t k m g nl gl _ _ _ _ _ W. exact W. Qed.
+
+Lemma id_cross_footprint : cross_footprint id_cross.
+Proof.
+  intros t k m g1 g2 nl gl Hn Hg Hs Hc H1 H2. simpl. split.
+  - repeat split; try apply frame_refl; try lia; try apply Hs; apply Hc.
+  - intros g [E|[E|[]]]; subst; assumption.
+Qed.
+
+Lemma id_cross_keeps_wf : cross_keeps_wf id_cross.
+Proof. intros t k m g1 g2 nl gl _ _ _ _ _ _ W1 W2 g [E|[E|[]]]; subst; assumption. Qed.
